@@ -3,6 +3,10 @@ package main
 import (
 	"fmt"
 	"math/rand/v2"
+	"os"
+	"path/filepath"
+	"regexp"
+	"sort"
 	"strings"
 )
 
@@ -161,6 +165,82 @@ func caseDefs() []struct {
 		mk("parsable_cells_collide_across_traits_by_case", "ustring", []string{"Red", "Green", "Blue"}, []string{"x", "y", "z"}, []string{"Y", "Z", "X"}),
 		mk("parsable_named_string_cells_differ_by_case", "tstring", []string{"Ab", "Cd", "Ef"}, []string{"aB", "AB", "cD"}),
 	}
+}
+
+// repoDir is the scratch copy of the tree under test (set by main from -repo).
+var repoDir = "/repo"
+
+var tmplLocals []string
+var tmplLocalsRead bool
+
+var (
+	reAction  = regexp.MustCompile(`(?s)\{\{.*?\}\}`)
+	reDefine  = regexp.MustCompile(`([A-Za-z_]\w*(?:\s*,\s*[A-Za-z_]\w*)*)\s*:=`)
+	reVarDecl = regexp.MustCompile(`\bvar\s+([A-Za-z_]\w*)`)
+	reFunc    = regexp.MustCompile(`func\s*(?:\(\s*([A-Za-z_]\w*)\s+[^)]*\))?\s*\w*\s*\(([^)]*)\)`)
+)
+
+// templateLocals reads genum's template from the tree under test and returns the identifiers its Go
+// text binds inside function bodies: `x, y :=`, `var x`, parameters and receivers.  Read from the
+// CURRENT template, so that a renamed or new local is tried as a constant name in the very next run.
+func templateLocals() []string {
+	if tmplLocalsRead {
+		return tmplLocals
+	}
+	tmplLocalsRead = true
+	b, err := os.ReadFile(filepath.Join(repoDir, "genum", "gen", "enumTemplate.gotmpl"))
+	if err != nil {
+		return nil
+	}
+	goText := reAction.ReplaceAllString(string(b), " ")
+	set := map[string]bool{}
+	for _, m := range reDefine.FindAllStringSubmatch(goText, -1) {
+		for _, x := range strings.Split(m[1], ",") {
+			set[strings.TrimSpace(x)] = true
+		}
+	}
+	for _, m := range reVarDecl.FindAllStringSubmatch(goText, -1) {
+		set[m[1]] = true
+	}
+	for _, m := range reFunc.FindAllStringSubmatch(goText, -1) {
+		if m[1] != "" {
+			set[m[1]] = true
+		}
+		for _, prm := range strings.Split(m[2], ",") {
+			if f := strings.Fields(prm); len(f) >= 2 {
+				set[f[0]] = true
+			}
+		}
+	}
+	delete(set, "_")
+	for k := range set {
+		tmplLocals = append(tmplLocals, k)
+	}
+	sort.Strings(tmplLocals)
+	return tmplLocals
+}
+
+// localNameDefs: for every identifier the current template binds, a definition with a constant of that
+// name - without traits, and with parsable untyped string and integer traits (every decoder family and
+// the Parse switch are emitted).
+func localNameDefs() []struct {
+	E        *EnumSpec
+	Parsable []string
+} {
+	type sp = struct {
+		E        *EnumSpec
+		Parsable []string
+	}
+	var out []sp
+	for _, id := range templateLocals() {
+		e := plainEnum("const_named_like_template_local_"+id, "int", 3)
+		e.Lines[1].Name = id
+		out = append(out, sp{e, nil})
+		t := withTraits(plainEnum("const_named_like_template_local_traits_"+id, "int", 3), "ustring", "uint")
+		t.Lines[1].Name = id
+		out = append(out, sp{t, eligibleParsable(t)})
+	}
+	return out
 }
 
 func ciCollision() *EnumSpec {
@@ -560,6 +640,16 @@ func quickSpecs(r *rand.Rand) []*Spec {
 		add("imports", e, withParsable(defaultOpts(), nil))
 		if i%2 == 0 {
 			add("imports", e, withParsable(settings[r.IntN(32)], []string{traitName(e.Traits[0])}))
+		}
+	}
+	// constants named like the locals of the current template: every one with -caseInsensitive and all
+	// codecs (the largest set of emitted scopes), a rotating third also at the default setting
+	for i, sp := range localNameDefs() {
+		on := defaultOpts()
+		on.CI = true
+		add("locals", sp.E, withParsable(on, sp.Parsable))
+		if (i+off)%3 == 0 {
+			add("locals", sp.E, withParsable(defaultOpts(), sp.Parsable))
 		}
 	}
 	out = append(out, multiDefs()...)
